@@ -9,8 +9,8 @@ from . import solverkit as K
 
 INF = float('inf')
 REDUCERS = {'sum': lambda a: float(np.sum(a)), 'max': lambda a: float(np.max(a)), 'mean': lambda a: float(np.mean(a)),
-            'min': lambda a: float(np.min(a)), 'prod': lambda a: float(np.prod(a))}
-MYSTIC_REDUCERS = {'sum': np.sum, 'max': np.max, 'mean': np.mean, 'min': np.min, 'prod': np.prod}
+            'min': lambda a: float(np.min(a)), 'prod': lambda a: float(np.prod(a)), 'sumsq': lambda a: float(np.sum(np.asarray(a) ** 2))}
+MYSTIC_REDUCERS = {'sum': np.sum, 'max': np.max, 'mean': np.mean, 'min': np.min, 'prod': np.prod, 'sumsq': (lambda a: np.sum(np.asarray(a) ** 2))}
 
 
 def feq(a, b, rel):
@@ -77,7 +77,10 @@ def gen_cfg(rng, focus, solvers=('nm', 'powell', 'de', 'de2')):
         cfg['cost'] = ['array', [round(rng.uniform(-2, 2), 2) for _ in range(dim)]]
         cfg['reducer'] = rng.choice(['sum', 'max', 'mean', 'min', 'prod'])
         cfg['reducer_arraylike'] = rng.random() < 0.5 or cfg['reducer'] == 'mean'
-        if cfg['reducer'] == 'prod': cfg.pop('pen', None)      # (a penalty is added to the components before they are reduced: only reducers that commute with a shift are combined with one)
+        if rng.random() < 0.25:       # a reducer that is not the identity on a single component, also on a cost with exactly one component
+            cfg['reducer'] = 'sumsq'; cfg['reducer_arraylike'] = True
+            if rng.random() < 0.6: cfg['cost'] = ['array1', cfg['cost'][1]]
+        if cfg['reducer'] in ('prod', 'sumsq'): cfg.pop('pen', None)      # (a penalty is added to the components before they are reduced: only reducers that commute with a shift are combined with one)
     if focus in ('c01', 'c03') and not cfg.get('reducer') and rng.random() < 0.15:
         cfg['extra_args'] = [rng.choice([0.0, 1.5, -2.0]), rng.choice([1.0, 2.0, 0.5])]
         cfg['extra_args_by_keyword'] = rng.random() < 0.5
